@@ -350,7 +350,7 @@ def unmarshalMap (opt : Bool) (c : Cache) (b : Bytes) : Except Err (GoAny F) :=
         | k' :: r' =>
           if k' = 0x7D then .ok (.map [], r', c)
           else
-            match genMembers fp opt (fuelFor b) 1 [] c (k' :: r') with
+            match genMembers fp opt (2 * b.length + 1) 1 [] c (k' :: r') with
             | .ok (ms, r'', c') => .ok (.map ms, r'', c')
             | .error e => .error e
       else if k = 0x6E then
@@ -374,7 +374,7 @@ def unmarshalSlice (opt : Bool) (c : Cache) (b : Bytes) : Except Err (GoAny F) :
         | k' :: r' =>
           if k' = 0x5D then .ok (.slice [], r', c)
           else
-            match genElems fp opt (fuelFor b) 1 [] c (k' :: r') with
+            match genElems fp opt (2 * b.length + 1) 1 [] c (k' :: r') with
             | .ok (xs, r'', c') => .ok (.slice xs, r'', c')
             | .error e => .error e
       else if k = 0x6E then
